@@ -63,6 +63,26 @@ func c06Frames(rng *rand.Rand, role int64, pendID string) []string {
 		`{"vendorId":"v","unknown":{"deep":[1,2,3]}}`, `{"vendorId":"` + strings.Repeat("z", 256) + `"}`, `{"VENDORID":"v"}`, `{"vendorId":"a","vendorId":"b"}`} {
 		add(fmt.Sprintf(`[2,"i4","%s",%s]`, action, p))
 	}
+	// well-formed, correctly typed CALLs on real payload types that violate a numeric constraint (integer and float fields,
+	// nested and in slices): the rejection itself has to be built without crashing
+	switch role {
+	case 0:
+		add(`[2,"n1","SetChargingProfile",{"connectorId":1,"csChargingProfiles":{"chargingProfileId":1,"stackLevel":0,"chargingProfilePurpose":"TxDefaultProfile","chargingProfileKind":"Absolute","chargingSchedule":{"chargingRateUnit":"W","chargingSchedulePeriod":[{"startPeriod":0,"limit":-1.5}]}}}]`)
+		add(`[2,"n2","SetChargingProfile",{"connectorId":1,"csChargingProfiles":{"chargingProfileId":1,"stackLevel":0,"chargingProfilePurpose":"TxDefaultProfile","chargingProfileKind":"Absolute","chargingSchedule":{"chargingRateUnit":"W","minChargingRate":-0.5,"chargingSchedulePeriod":[{"startPeriod":0,"limit":1}]}}}]`)
+		add(`[2,"n3","GetCompositeSchedule",{"connectorId":-1,"duration":10}]`)
+		add(`[2,"n4","ChangeAvailability",{"connectorId":-2,"type":"Operative"}]`)
+	case 1:
+		add(`[2,"n1","MeterValues",{"connectorId":-1,"meterValue":[{"timestamp":"2020-01-01T00:00:00Z","sampledValue":[{"value":"1"}]}]}]`)
+		add(`[2,"n2","StopTransaction",{"meterStop":-5,"timestamp":"2020-01-01T00:00:00Z","transactionId":1}]`)
+		add(`[2,"n3","StartTransaction",{"connectorId":0,"idTag":"t","meterStart":-1,"timestamp":"2020-01-01T00:00:00Z"}]`)
+	case 2:
+		add(`[2,"n1","CostUpdated",{"totalCost":-1.5,"transactionId":"t1"}]`)
+		add(`[2,"n2","SetChargingProfile",{"evseId":-1,"chargingProfile":{"id":1,"stackLevel":0,"chargingProfilePurpose":"TxDefaultProfile","chargingProfileKind":"Absolute","chargingSchedule":[{"id":1,"chargingRateUnit":"W","chargingSchedulePeriod":[{"startPeriod":0,"limit":-2.5}]}]}}]`)
+		add(`[2,"n3","GetCompositeSchedule",{"duration":-3,"evseId":1}]`)
+	default:
+		add(`[2,"n1","MeterValues",{"evseId":-1,"meterValue":[{"timestamp":"2020-01-01T00:00:00Z","sampledValue":[{"value":1.5}]}]}]`)
+		add(`[2,"n2","NotifyEVChargingSchedule",{"timeBase":"2020-01-01T00:00:00Z","evseId":1,"chargingSchedule":{"id":1,"chargingRateUnit":"W","minChargingRate":-0.5,"chargingSchedulePeriod":[{"startPeriod":0,"limit":-1.5}]}}]`)
+	}
 	// replies: for the pending id, foreign ids, malformed
 	for _, id := range []string{pendID, "foreign", "i2"} {
 		for _, tail := range []string{`,{"status":"Accepted"}`, `,{"status":"Bogus"}`, `,{"status":5}`, `,{}`, `,null`, `,"x"`, `,[1]`, ``, `,{"status":"Accepted"},"extra"`} {
